@@ -400,7 +400,7 @@ static void DecodeAdr(tStrComp* pArg, Word Mask) {
                 StrCompRefRight(
                         &DispComp, &IndirComp,
                         PPos - IndirComp.str.p_str + !!(Save == '+'));
-                H32 = EvalStrIntExpression(&DispComp, SInt16, &OK);
+                H32 = EvalStrIntExpression(&DispComp, Int16, &OK);
             }
             if (OK) {
                 switch (HSize) {
